@@ -66,3 +66,5 @@ pub(crate) use helpers::*;
 #[allow(unused_imports)]
 pub(crate) use helpers_32::*;
 pub(crate) use sanity::SideMetadataSanity;
+#[cfg(mmtk_verif)]
+pub use sanity::verif_hooks as verif_sanity_hooks;
